@@ -169,8 +169,7 @@ def run(ctx):
         ctx.count()
         ctx.nontriv(json.dumps(ops))
     ctx.sample({"random_ops": cases[-1]["ops"]})
-    for pt, pc in zip(chunks(traces, 2500), chunks(cases, 2500)):
-        ctx.validate(SPEC, "FormatBuilderTrace", "FormatBuilderTrace.cfg", pt, cases=pc, name="recorded-sequences", timeout=1800)
+    ctx.validate(SPEC, "FormatBuilderTrace", "FormatBuilderTrace.cfg", traces, cases=cases, name="recorded-sequences", timeout=1800)
 
 
 def replay(ctx, path):
